@@ -843,45 +843,59 @@ func main() {
 	var tot mc.Stats
 	per := map[string]any{}
 	sites := map[string]bool{}
+	type job struct {
+		c cfg
+		e *env
+		g *group
+	}
+	var jobs, later []job
 	for _, c := range cfgs {
 		e := newEnv(c.n)
+		for _, g := range e.groups(c.level) {
+			if g.name == "validatorSetShrinks" { // small: run first so a deadline never cuts it
+				jobs = append(jobs, job{c, e, g})
+			} else {
+				later = append(later, job{c, e, g})
+			}
+		}
+	}
+	for _, j := range append(jobs, later...) {
+		c, e, g := j.c, j.e, j.g
 		polyenv.Setup(0, e.vals)
 		q := gov.Quorum(c.n)
-		for _, g := range e.groups(c.level) {
-			if r.Expired() {
-				r.Capped(fmt.Sprintf("N=%d group=%s not run", c.n, g.name))
-				continue
-			}
-			x := &explorer{r: r, e: e, g: g, pm: map[string]*pair{}, xm: map[string]*extra{}, effects: map[string]int{}}
-			for _, p := range g.pairs {
-				x.pm[p.name] = p
-			}
-			for _, ex := range g.extras {
-				x.xm[ex.name] = ex
-			}
-			depth := q + 2
-			if len(g.extras) > 0 {
-				depth++
-			}
-			if g.depth > 0 {
-				depth = g.depth
-			}
-			st := x.run(depth)
-			if st.Truncated {
-				r.Capped(fmt.Sprintf("N=%d group=%s truncated by deadline", c.n, g.name))
-			} else if x.effects[g.pairs[0].name] == 0 {
-				r.HarnessError("N=%d group=%s: canonical approval round of %s never took effect", c.n, g.name, g.pairs[0].name)
-			}
-			sites[g.pairs[0].site] = true
-			tot.States += st.States
-			tot.Transitions += st.Transitions
-			if st.MaxDepth > tot.MaxDepth {
-				tot.MaxDepth = st.MaxDepth
-			}
-			per[fmt.Sprintf("N%d/%s", c.n, g.name)] = map[string]int{"states": st.States, "transitions": st.Transitions, "depth": st.MaxDepth}
-			if len(per) <= 2 {
-				r.Sample(map[string]any{"N": c.n, "group": g.name, "events": x.events(state{}, 0), "depth": depth, "states": st.States})
-			}
+		if r.Expired() {
+			r.Capped(fmt.Sprintf("N=%d group=%s not run", c.n, g.name))
+			continue
+		}
+		x := &explorer{r: r, e: e, g: g, pm: map[string]*pair{}, xm: map[string]*extra{}, effects: map[string]int{}}
+		for _, p := range g.pairs {
+			x.pm[p.name] = p
+		}
+		for _, ex := range g.extras {
+			x.xm[ex.name] = ex
+		}
+		depth := q + 2
+		if len(g.extras) > 0 {
+			depth++
+		}
+		if g.depth > 0 {
+			depth = g.depth
+		}
+		st := x.run(depth)
+		if st.Truncated {
+			r.Capped(fmt.Sprintf("N=%d group=%s truncated by deadline", c.n, g.name))
+		} else if x.effects[g.pairs[0].name] == 0 {
+			r.HarnessError("N=%d group=%s: canonical approval round of %s never took effect", c.n, g.name, g.pairs[0].name)
+		}
+		sites[g.pairs[0].site] = true
+		tot.States += st.States
+		tot.Transitions += st.Transitions
+		if st.MaxDepth > tot.MaxDepth {
+			tot.MaxDepth = st.MaxDepth
+		}
+		per[fmt.Sprintf("N%d/%s", c.n, g.name)] = map[string]int{"states": st.States, "transitions": st.Transitions, "depth": st.MaxDepth}
+		if len(per) <= 2 {
+			r.Sample(map[string]any{"N": c.n, "group": g.name, "events": x.events(state{}, 0), "depth": depth, "states": st.States})
 		}
 	}
 	var ns []int
